@@ -51,7 +51,15 @@ def eval_mask(expr, lb, ub, root='primal'):
             return a > b
         if isinstance(op, ast.GtE):
             return a >= b
+    if isinstance(expr, ast.Call) and call_name(expr) in ('np.isclose', 'numpy.isclose', 'np.allclose',
+                                                          'math.isclose') and len(expr.args) >= 2:
+        raise ToleranceMask(ntext(expr))
     raise AnalysisError('R14: mask expression `%s` is not a comparison of bounds' % ntext(expr)[:60])
+
+
+class ToleranceMask(Exception):
+    """a bound pattern is classified by a tolerance test (np.isclose) instead of an exact comparison"""
+
 
 
 def eval_val(e, lb, ub):
@@ -251,6 +259,22 @@ def run(repo):
     res.notes.append('masks: ' + '; '.join('%s = %s' % (k, ntext(v)) for k, v in sorted(masks.items())))
     res.notes.append('blocks: ' + '; '.join('%s: %+g x %s %+g*%s' % (b['mask'], b['coef'], '=' if b['sense'] else '<=',
                                                                        b['rhs'][0], b['rhs'][1]) for b in blocks))
+    # the case analysis below is exact only if the masks are exact comparisons of the bounds
+    for mname, mexpr in sorted(masks.items()):
+        try:
+            eval_mask(mexpr, 0.0, 1.0)
+        except AnalysisError:
+            continue          # a mask over something else than the bounds (e.g. the senses): not part of this analysis
+        except ToleranceMask as exc:
+            res.inst({'mask': mname, 'exact_comparison': False}, False)
+            res.fail(Finding(RULE, fi.fq, 'tolerance mask ' + mname,
+                             'LP dual: the bound pattern `%s` is decided by the tolerance test `%s`: a variable with '
+                             'a genuine but narrow range (ub - lb within the relative tolerance, e.g. '
+                             '100000 <= x <= 100000.5) is classified like lb == ub and gets the row of a fixed '
+                             'variable -- the returned program is then not the dual of the primal'
+                             % (mname, exc), repo.where(fi), P))
+            res.floor = 1          # the pattern analysis is not run on an inexact mask
+            return res
     for lb, ub in PATTERNS:
         lo, hi, rows = represented(masks, blocks, free_mask, neg_mask, lb, ub)
         ok = (lo == lb and hi == ub)
